@@ -160,13 +160,40 @@ func (c *Ctx) role(name string) *ssa.Function {
 	case "newick.quoted":
 		return c.calleeBySig(c.role("newick.nameFromText"), "(string)(bool)", 0)
 	case "newick.traverse":
-		return c.calleeBySig(c.fn("formats/newick", "(*Node).PreOrder"), "(*formats/newick.Node)(bool)(iter.Seq[*formats/newick.Node])", 0)
+		if f := c.calleeBySig(c.fn("formats/newick", "(*Node).PreOrder"), "(*formats/newick.Node)(bool)(iter.Seq[*formats/newick.Node])", 0); f != nil {
+			return f
+		}
+		// the order selected by a value of a small type of the package (an enumeration) instead of a bool: the one
+		// method of *Node that both PreOrder and PostOrder call with a constant, returning the same iterator type
+		pre, post := c.fn("formats/newick", "(*Node).PreOrder"), c.fn("formats/newick", "(*Node).PostOrder")
+		if pre == nil || post == nil {
+			return nil
+		}
+		var found *ssa.Function
+		for _, g := range c.calleesIn(pre) {
+			if g.Pkg != pre.Pkg || g.Blocks == nil || len(g.Params) != 2 || g.Signature.Results().Len() != 1 || !types.Identical(g.Signature.Results().At(0).Type(), pre.Signature.Results().At(0).Type()) {
+				continue
+			}
+			if bt, ok := g.Params[1].Type().Underlying().(*types.Basic); !ok || bt.Info()&types.IsInteger == 0 {
+				continue
+			}
+			if len(staticCallsTo(post, g)) == 1 && len(staticCallsTo(pre, g)) == 1 {
+				if found != nil {
+					return nil
+				}
+				found = g
+			}
+		}
+		return found
 	case "sequtil.complement":
 		return c.calleeBySig(c.fn("sequtil", "ReverseComplement"), "(byte)(byte)", 0)
 	case "regions.cp":
 		return c.calleeBySig(c.fn("regions", "(*Index).At"), "([]int)([]int)", 0)
 	case "regions.eventLess":
-		return c.calleeBySig(c.fn("regions", "NewIndex"), "(regions.event,regions.event)(bool)", 3)
+		if f := c.calleeBySig(c.fn("regions", "NewIndex"), "(regions.event,regions.event)(bool)", 3); f != nil {
+			return f
+		}
+		return c.calleeBySig(c.fn("regions", "NewIndex"), "(*regions.event,*regions.event)(bool)", 3) // the events by pointer
 	case "regions.keys":
 		return c.calleeBySig(c.fn("regions", "NewIndex"), "(map[int]struct{})([]int)", 2)
 	case "smtext.singleChar":
